@@ -309,7 +309,7 @@ def run_check(pid, tier, seed):
     known = [k for k in load_known() if k.get("property") == pid and k.get("status") == "known"]
     known_tags = {k["match"]: k for k in known}
     mon_fail = [(i, t[4:]) for i, t in fails if t.startswith("mon:")]
-    corr_fail = [i for i, t in fails if t == "corr"]
+    corr_fail = [i for i, t in fails if t.startswith("corr")]
     new_mon = [(i, t) for i, t in mon_fail if t not in known_tags]
     seen_known = {}
     for i, t in mon_fail:
